@@ -857,3 +857,16 @@ GROUPS["p14"] = [
       "    let mut len = lints.len();\n    for i in remove_indices.into_iter().rev() {\n        len -= 1;\n        lints.swap(i, len);\n    }\n    lints.truncate(len);\n}",
       None),
 ]
+
+# C07: user dictionary added in front of the curated one (the shape of seeded/C07-e) / curated first through a local
+_CM_OLD = "        lint_dict.add_dictionary(FstDictionary::curated());\n        lint_dict.add_dictionary(Arc::new(user_dictionary.clone()));"
+GROUPS["g26"] += [
+    E("c07-user-dictionary-first", ["C07"], "harper-wasm/src/lib.rs", _CM_OLD,
+      "        lint_dict.add_dictionary(Arc::new(user_dictionary.clone()));\n        lint_dict.add_dictionary(FstDictionary::curated());",
+      "R-C07-first:Linter::construct_merged_dict:curated-first"),
+]
+GROUPS["p14"] += [
+    E("p-c07-curated-first-through-local", ["C07"], "harper-wasm/src/lib.rs", _CM_OLD,
+      "        let curated = FstDictionary::curated();\n        let user = Arc::new(user_dictionary.clone());\n        lint_dict.add_dictionary(curated);\n        lint_dict.add_dictionary(user);",
+      None),
+]
